@@ -33,6 +33,7 @@ def run_property(ctx, make_lines, rule, oracle, assumptions, nontrivial, n_quick
 def evaluate(ctx, aug, impl, model, oracle, name_of_corr):
     # the statement itself, evaluated on every implementation output
     worst = None
+    corr = []       # notes 'CORR: ...': the output differs from what the model's closed form gives though the statement holds
     for a, i in zip(aug, impl):
         t = i.split()
         if len(t) >= 2 and t[1] in ("panic", "hang"):
@@ -40,6 +41,9 @@ def evaluate(ctx, aug, impl, model, oracle, name_of_corr):
             m = model[aug.index(a)] if False else None
         else:
             note = oracle(a, i)
+        if note and note.startswith("CORR:"):
+            corr.append((a, i, note[5:].strip()))
+            continue
         if note and note != "skip":
             if worst is None or len(a) < len(worst[0]):
                 worst = (a, i, note)
@@ -54,6 +58,11 @@ def evaluate(ctx, aug, impl, model, oracle, name_of_corr):
     if worst:
         a, i, note = worst
         ctx.violation("case-%s" % a.split()[1], a + "\n# impl: " + i[:600], note)
+        return
+    if corr and not mism:
+        a, i, note = min(corr, key=lambda t: len(t[0]))
+        ctx.violation("corr-%s" % a.split()[1], a + "\n# correspondence %s no longer checks (%d cases)\n# impl:  %s" % (name_of_corr, len(corr), i[:600]),
+                      note + " (the statement's oracle found no failing input)", found_input=False)
         return
     if mism:
         a, i, m = min(mism, key=lambda t: len(t[0]))
